@@ -25,13 +25,24 @@ PROP = dict(
           "scalar values (ASCII, CR/LF/CRLF, U+FEFF/FFFE/FFFF/D7FF/E000, 2-byte, BMP, supplementary planes) encoded by an independent codec as "
           "UTF-8 with BOM, UTF-16LE with BOM, UTF-16BE with BOM and UTF-8 without BOM; text() (one-shot and on an opened TextFile) must equal the "
           "reference UTF-8 -- for UTF-16 either that text or the text with each CR LF folded into LF, which the reader does by design. "
-          "Non-trivial: hist - a phase leaves >= 255 bytes in the file or appends after a reopen; lines - a raw line of >= 254 bytes (crosses the "
+          "Same-object sessions (op 'so'): one File or TextFile object is opened WRITE / APPEND / RW, writes n1 bytes, optionally flush()es, answers one "
+          "info query while open (size / lastModified / isFile / isDirectory / creationDate / exists; asserted: isFile, !isDirectory, exists, and "
+          "size() == bytes in the file when it was flushed first - without flush() the call is only exercised), writes n2 more bytes, is closed, and "
+          "is then read through the SAME object: size(), content(), firstBytes(n), size() again, and for TextFile text() and lines() (close() "
+          "between reads, as content()/text() leave the object open at end of file) must equal the model; fresh-object verification follows as for "
+          "every phase. Long BOM texts (part bomlong, op 'bomr' = runs of filler characters + one scalar): 2040..2056, 4088..4104 and up to ~9000 "
+          "UTF-16 code units with supplementary-plane characters (surrogate pairs), CR|LF pairs and BMP characters starting at code unit "
+          "2048k-1+delta, delta in -4..4 (k = 1..4), further pairs right after the edge and an earlier pair in the run, in UTF-16LE/BE and UTF-8 "
+          "with BOM and plain UTF-8; same oracle as bom. "
+          "Non-trivial: hist - a phase leaves >= 255 bytes in the file or appends after a reopen or queries an open writer and writes on; bomlong - all; lines - a raw line of >= 254 bytes (crosses the "
           "255-byte fgets chunk) or CRLF and lone CR in one text; bom - a supplementary-plane scalar or a CR LF pair; copy and grid - all. Distinct = "
           "distinct FNV-1a hash of the serialised case."),
     assumptions=["POSIX open/read/write on the build directory return what is on disk (ground truth); the reference line split and the reference UTF codec "
                  "(harness/common/ref_utf.h, audited against python codecs by C08) are right",
                  "texts are NUL-free and, outside the bom part, never start with FF FE, FE FF or EF BB BF (such files are BOM files by design)",
-                 "all reading is done through fresh File / TextFile objects after the writer was closed (a File opened for writing is not a documented reader)",
+                 "reading is done after the writer was closed: through fresh File / TextFile objects and, in the same-object sessions, through the writer "
+                 "object itself after close() (a File still open for writing is not a documented reader; size() on an open writer is asserted only after flush() "
+                 "and only for the first query of that object, later answers come from its cache by design)",
                  "temporary files live under $VF_TMPDIR/<pid>/; when /dev/shm is a different file system than the build directory the driver also passes "
                  "$VF_XDEV_DIR=/dev/shm/vf_xdev_<pid> and copy/move ops with bit 2 target a file there (cross-device branch of Directory::move: copy + remove "
                  "after EXDEV); only the content is judged there, not move's return value",
